@@ -77,6 +77,8 @@ package editor
 //@   terminates
 //@   requires bufok(reg)
 //@   assigns mapof(reg.num), mapof(reg.alpha)
+//@   let d = atoi(enc1(register))
+//@   ensures [numbered-register-written] len(content) > 0 && clean(content) && register != 0 && atoiok(enc1(register)) && 0 < d && d < 10 ==> has(reg.num, d) && reg.num[d] == content
 
 // C01: rotating the kill ring keeps every register well-formed (each moved entry goes through a string conversion)
 //@ func (*Buffers).Pop
